@@ -76,6 +76,28 @@ theorem dispatch_consumes (tbl : List (Seq × Bind)) (ks : Seq) (e : Eng) (n : N
   rw [dispatchKeys_eq tbl n e [] [] false hmk (by rw [hbuf]; exact hn), hbuf]
   exact dispatch_progress tbl ks [] [] false e.prefixed e.active hne
 
+/-- … while the LOCAL keymaps (menu-select, isearch, vi-opp, visual…) do what the full statement asks:
+the shorter binding runs and the key that ruled the longer ones out is the next key of the stack. -/
+theorem local_keymap_gives_the_ruling_out_key_back (tbl : List (Seq × Bind)) (s rest : Seq) (k : Nat) (b : Bind)
+    (e : Eng) (isIsearch : Bool)
+    (htbl : tbl.isEmpty = false) (hne : s ≠ []) (hb : lastExact s tbl = b) (hact : b.action ≠ "")
+    (hall : ∀ i, 0 < i → i ≤ s.length → hasProperExt (s.take i) tbl = true)
+    (hdead1 : (lastExact (s ++ [k]) tbl).action = "") (hdead2 : hasProperExt (s ++ [k]) tbl = false)
+    (ht : Typed e (s ++ k :: rest)) (hesc : runesOfBytes s ≠ [0x1b]) :
+    (matchLocal e tbl isIsearch).2.1 = b ∧ (matchLocal e tbl isIsearch).1.keys.buf = k :: rest ∧
+      (matchLocal e tbl isIsearch).2.2.2 = false := by
+  have hd := shorter_binding_runs tbl s rest k b e (e.keys.buf.length + e.keys.mkeys.length) hne hb hact hall hdead1 hdead2 ht
+    (by rw [ht.1]; omega)
+  unfold matchLocal
+  simp only [htbl, Bool.false_eq_true, if_false, hd]
+  have hs : s.isEmpty = false := by cases s with | nil => exact absurd rfl hne | cons _ _ => rfl
+  have hk : (List.drop s.length (s ++ [k])) = [k] := by simp
+  have hnesc : (runesOfBytes s == [0x1b]) = false := by
+    cases h : (runesOfBytes s == [0x1b]) with
+    | false => rfl
+    | true => exact absurd (by simpa using h) hesc
+  simp [isEscapeKey, Keys.matchedKeys, hs, hk, hnesc]
+
 -- non-vacuity: a table with overlapping binds  a ↦ Z,  ab ↦ X,  abc ↦ Y  meets the hypotheses of
 -- clause 1 for `abc`, clause 2 for `ab`, clause 3 for `q` and clause 4 for `ab` followed by `d`
 def tbl3 : List (Seq × Bind) := [([97], ⟨"Z", false⟩), ([97, 98], ⟨"X", false⟩), ([97, 98, 99], ⟨"Y", false⟩)]
@@ -100,6 +122,12 @@ theorem key_ruling_out_longer_binds_is_dropped_in_main :
                      registered := ["self-insert", "X"] }
     (matchMain e).2.1 = ⟨"self-insert", false⟩ ∧ (matchMain e).1.keys.buf = [] ∧
       (matchMain e).1.keys.matched = [106, 97] := by
+  decide
+
+-- non-vacuity of the local-keymap clause: table a ↦ Z, ab ↦ X, abc ↦ Y as a local keymap, keys a b d q:
+-- X runs, and d is the next key of the stack
+example : (matchLocal { keys := { buf := [97, 98, 100, 113] }, registered := ["X"] } tbl3 false).2.1 = ⟨"X", false⟩ ∧
+    (matchLocal { keys := { buf := [97, 98, 100, 113] }, registered := ["X"] } tbl3 false).1.keys.buf = [100, 113] := by
   decide
 
 end RLV.Props.C03
